@@ -246,6 +246,12 @@ class C09:
 
 
 # ------------------------------------------------------------------------------------------------
+def _obs(run, scope, monitor, constraint, msg, **detail):
+    """mismatch outside C09's statement: counted, never reported"""
+    run.probe("obs:" + monitor + ":" + constraint)
+    run.log.add("observation", monitor, constraint)
+
+
 def _viol(run, scope, monitor, constraint, msg, **detail):
     run.violate(scope, monitor, msg, constraint=constraint, **detail)
     raise StopRun()
@@ -316,7 +322,9 @@ def _check_rows(run, env, plan, td, rows, t, phase, source, first=False):
                   row=r, got=cb_all[r], want=led.best, best_at=led.best_at, **base)
         # ---- visited_time ----------------------------------------------------------------------------
         if not I.visited_time_consistent(rec_c, vt_all[r]):
-            _viol(run, scope, "visited_time", "positions",
+            # not part of C09's statement (tour validity / costs / best-so-far / rewards): observation only;
+            # a stale visited_time matters through the policies' masks, i.e. through invalid tours
+            _obs(run, scope, "visited_time", "positions",
                   f"row {r} after move {t}: visited_time {vt_all[r]} does not give the positions of the "
                   f"nodes along rec_current {rec_c} (from node 0: {I.positions(rec_c)})",
                   row=r, visited_time=vt_all[r], rec=rec_c, **base)
@@ -360,13 +368,14 @@ def _check_rows(run, env, plan, td, rows, t, phase, source, first=False):
     try:
         env.check_solution_validity(td)
     except AssertionError as e:
-        _viol(run, scope, "checker", "rejects_rec_best", f"after move {t}: check_solution_validity rejects "
+        # the checker's verdict is C06's ground
+        _obs(run, scope, "checker", "rejects_rec_best", f"after move {t}: check_solution_validity rejects "
               f"rec_best: {e}", rec_best=rb_all, **base)
     # ---- mirror rows stay identical -------------------------------------------------------------------
     if plan["mirror"] and B >= 2:
         for r in range(1, B):
             if rc_all[r] != rc_all[0] or rb_all[r] != rb_all[0] or cc_all[r] != cc_all[0] or cb_all[r] != cb_all[0]:
-                _viol(run, scope, "compose", "mirror_rows_differ",
+                _obs(run, scope, "compose", "mirror_rows_differ",
                       f"after move {t}: row {r} is a copy of row 0 fed the same moves, but its state differs "
                       f"(rec_current {rc_all[r]} vs {rc_all[0]}, cost_bsf {cb_all[r]!r} vs {cb_all[0]!r})",
                       row=r, **base)
